@@ -528,8 +528,8 @@ func builtinArrayLastIndexOf(call FunctionCall) Value {
 func builtinArrayEvery(call FunctionCall) Value {
 	thisObject := call.thisObject()
 	this := objectValue(thisObject)
+	length := int64(toUint32(thisObject.get(propertyLength)))
 	if iterator := call.Argument(0); iterator.isCallable() {
-		length := int64(toUint32(thisObject.get(propertyLength)))
 		callThis := call.Argument(1)
 		for index := range length {
 			if key := arrayIndexToString(index); thisObject.hasProperty(key) {
@@ -547,8 +547,8 @@ func builtinArrayEvery(call FunctionCall) Value {
 func builtinArraySome(call FunctionCall) Value {
 	thisObject := call.thisObject()
 	this := objectValue(thisObject)
+	length := int64(toUint32(thisObject.get(propertyLength)))
 	if iterator := call.Argument(0); iterator.isCallable() {
-		length := int64(toUint32(thisObject.get(propertyLength)))
 		callThis := call.Argument(1)
 		for index := range length {
 			if key := arrayIndexToString(index); thisObject.hasProperty(key) {
@@ -565,8 +565,8 @@ func builtinArraySome(call FunctionCall) Value {
 func builtinArrayForEach(call FunctionCall) Value {
 	thisObject := call.thisObject()
 	this := objectValue(thisObject)
+	length := int64(toUint32(thisObject.get(propertyLength)))
 	if iterator := call.Argument(0); iterator.isCallable() {
-		length := int64(toUint32(thisObject.get(propertyLength)))
 		callThis := call.Argument(1)
 		for index := range length {
 			if key := arrayIndexToString(index); thisObject.hasProperty(key) {
@@ -581,8 +581,8 @@ func builtinArrayForEach(call FunctionCall) Value {
 func builtinArrayMap(call FunctionCall) Value {
 	thisObject := call.thisObject()
 	this := objectValue(thisObject)
+	length := int64(toUint32(thisObject.get(propertyLength)))
 	if iterator := call.Argument(0); iterator.isCallable() {
-		length := int64(toUint32(thisObject.get(propertyLength)))
 		callThis := call.Argument(1)
 		values := make([]Value, length)
 		for index := range length {
@@ -600,8 +600,8 @@ func builtinArrayMap(call FunctionCall) Value {
 func builtinArrayFilter(call FunctionCall) Value {
 	thisObject := call.thisObject()
 	this := objectValue(thisObject)
+	length := int64(toUint32(thisObject.get(propertyLength)))
 	if iterator := call.Argument(0); iterator.isCallable() {
-		length := int64(toUint32(thisObject.get(propertyLength)))
 		callThis := call.Argument(1)
 		values := make([]Value, 0)
 		for index := range length {
